@@ -437,10 +437,9 @@ func c03RuleFOrder(p *Program, r *Reporter) {
 	r.Check(a.isTmpName(args[1]), rule, fk+"#rename-source", rsite,
 		"Rename's source is Name() of the file returned by the TempFile call",
 		"Rename's source is not Name() of the file returned by the TempFile call: the synced bytes and the renamed file may differ")
-	blobPath := p.Func(c03PkgFiles, "Storage", "blobPath")
 	refParam := c03ParamOfType(a.fn, "perkeep.org/pkg/blob", "Ref")
-	dest := c03StaticCall(args[2], blobPath)
-	okDest := dest != nil && refParam != nil && len(dest.Call.Args) == 2 && sameOrigin(dest.Call.Args[1], refParam)
+	destRef, isBP := c03BlobPathOf(p, args[2])
+	okDest := isBP && refParam != nil && sameOrigin(destRef, refParam)
 	r.Check(okDest, rule, fk+"#rename-dest", rsite,
 		"Rename's destination is blobPath(<the received ref>), the function every reader opens",
 		"Rename's destination is not blobPath(<the received ref parameter>): readers (fetch/stat/remove) would look elsewhere or the blob lands under another ref's name")
@@ -518,6 +517,29 @@ func c03RuleFOrder(p *Program, r *Reporter) {
 	}
 	r.Check(bad == "", rule, fk+"#ack-after-rename", rsite,
 		fmt.Sprintf("all %d maybe-nil-error return(s) are on the err==nil edge of the Rename", n), bad)
+}
+
+// c03BlobPathOf recognises the path of a blob's .dat file: a call of
+// (*Storage).blobPath, or its body inlined — filepath.Join(blobDirectory(ref),
+// blobFileBaseName(ref)). It returns the ref argument.
+func c03BlobPathOf(p *Program, v ssa.Value) (ref ssa.Value, ok bool) {
+	if c := c03StaticCall(v, p.Func(c03PkgFiles, "Storage", "blobPath")); c != nil && len(c.Call.Args) == 2 {
+		return c.Call.Args[1], true
+	}
+	j := c03CallIs(v, "path/filepath", "", "Join")
+	if j == nil || len(j.Call.Args) != 1 {
+		return nil, false
+	}
+	el := c03VarargElems(j.Call.Args[0])
+	if len(el) != 2 {
+		return nil, false
+	}
+	dir := c03StaticCall(el[0], p.Func(c03PkgFiles, "Storage", "blobDirectory"))
+	base := c03StaticCall(el[1], p.Func(c03PkgFiles, "", "blobFileBaseName"))
+	if dir == nil || base == nil || len(dir.Call.Args) != 2 || !sameOrigin(dir.Call.Args[1], base.Call.Args[0]) {
+		return nil, false
+	}
+	return base.Call.Args[0], true
 }
 
 func c03ParamOfType(fn *ssa.Function, pkgPath, name string) *ssa.Parameter {
@@ -748,7 +770,7 @@ func c03RuleFVisible(p *Program, r *Reporter) {
 			construct := FuncKey(fn) + "#VFS." + m
 			site := p.Pos(c.Pos())
 			switch {
-			case c03StaticCall(arg, blobPath) != nil:
+			case c03IsBlobPath(p, arg):
 				r.OK(rule, construct, site, "path is blobPath(ref): only a renamed-into-place .dat file is ever touched")
 			case TopFunc(fn) == a.fn && a.isTmpName(arg):
 				r.OK(rule, construct, site, "receive path touching its own temp file (tmp.Name())")
@@ -872,7 +894,7 @@ func c03RuleFVisible(p *Program, r *Reporter) {
 		site := p.Pos(a.temp.Pos())
 		switch {
 		case !okT || tail == "":
-			r.Violation(rule, construct, site, "the TempFile prefix does not end in a non-empty constant tail: nothing keeps a temp name from ending in the blob extension")
+			r.Undecided(rule, construct, site, "the TempFile prefix does not end in a non-empty constant tail: it cannot be shown that no temp name ends in the blob extension (if the variable part contained a '*', os.CreateTemp would keep what follows it as the name's tail)")
 		case strings.Contains(tail, "*"):
 			r.Violation(rule, construct, site, fmt.Sprintf("the TempFile prefix tail %q contains '*': os.CreateTemp would substitute the random part there and keep what follows", tail))
 		case ext == "" || strings.HasSuffix(tail, ext) || strings.HasSuffix(ext, tail):
@@ -901,6 +923,8 @@ func c03RuleFVisible(p *Program, r *Reporter) {
 		}
 	}
 }
+
+func c03IsBlobPath(p *Program, v ssa.Value) bool { _, ok := c03BlobPathOf(p, v); return ok }
 
 func c03ChanOf(t types.Type, elem *types.Named) bool {
 	ch, ok := t.Underlying().(*types.Chan)
